@@ -60,6 +60,433 @@ theorem gpdGetDt_eq (fs fe : String) (rec : Dict PVal) :
   · cases s <;> io_fin
   · cases s <;> cases e <;> io_fin
 
+/-! ## the writer side: `to_shapefile` -/
+
+def gTup (g : Groups) : List Shape × List Shape × List Shape × List Shape := (g.points, g.multipoints, g.lines, g.shapes)
+
+/-- one step of the classification loop: the shape goes to the list of its family -/
+theorem loop1_step (g : Groups) (s : Shape) : SrcIo.toShapefile.loop1 (gTup g) s =
+    match family s.geom with
+    | some .points => .ok (gTup { g with points := g.points ++ [s] })
+    | some .multipoints => .ok (gTup { g with multipoints := g.multipoints ++ [s] })
+    | some .lines => .ok (gTup { g with lines := g.lines ++ [s] })
+    | some .shapes => .ok (gTup { g with shapes := g.shapes ++ [s] })
+    | none => .error "ERR:Value" := by
+  unfold SrcIo.toShapefile.loop1
+  cases hg : s.geom <;> simp [shapeIsA, hg, family, gTup, pure, Except.pure]
+
+/-- the classification loop is the model's `groupLoop` -/
+theorem loop1_eq (coll : List Shape) : ∀ g : Groups,
+    List.foldlM SrcIo.toShapefile.loop1 (gTup g) coll = (groupLoop coll g).map gTup := by
+  induction coll with
+  | nil => intro g; rfl
+  | cons s rest ih =>
+    intro g
+    rw [List.foldlM_cons, loop1_step, groupLoop]
+    cases hf : family s.geom with
+    | none => rfl
+    | some f => cases f <;> simp only [bind, Except.bind] <;> exact ih _
+
+/-- the `issubclass` chain is `fieldType` -/
+theorem loop3_step (w : WriterS) (k : String) (t : PTag) :
+    SrcIo.toShapefile.loop3 w (k, t) = .ok (WriterS.field w k (fieldType t)) := by
+  unfold SrcIo.toShapefile.loop3
+  cases t <;> simp [PTag.isSub, fieldType, pure, Except.pure]
+
+/-- the declaration loop appends one field per key of the type map -/
+theorem loop3_eq : ∀ (tm : Dict PTag) (w : WriterS),
+    List.foldlM SrcIo.toShapefile.loop3 w tm =
+      .ok { w with file := { w.file with fields := w.file.fields ++ tm.map fun kt => (kt.1, fieldType kt.2) } } := by
+  intro tm
+  induction tm with
+  | nil => intro w; simp [List.foldlM, pure, Except.pure]
+  | cons kt rest ih =>
+    intro w
+    obtain ⟨k, t⟩ := kt
+    rw [List.foldlM_cons, loop3_step]
+    simp [WriterS.field, ih, bind, Except.bind]
+
+/-- what `_convert_dt(props.get(k))` evaluates to -/
+def cvt (props : Dict PVal) (k : String) : V :=
+  match dictGet props k with
+  | some v => V.p (GV.Io.convertDt v)
+  | none => V.none
+
+theorem convertDt_get (props : Dict PVal) (k : String) : SrcIo.convertDt (V.get props k) = .ok (cvt props k) := by
+  unfold V.get cvt
+  cases dictGet props k with
+  | none => rfl
+  | some v => exact convertDt_eq v
+
+theorem cvt_toP (props : Dict PVal) (k : String) :
+    V.toP (cvt props k) = GV.Io.convertDt ((dictGet props k).getD .null) := by
+  unfold cvt
+  cases dictGet props k <;> rfl
+
+/-- one step of the record / shape loop -/
+theorem loop4_step (tm : Dict PTag) (w : WriterS) (i : Nat) (s : Shape) :
+    SrcIo.toShapefile.loop4 tm w (i, s) =
+      match toPyshp s.geom with
+      | none => .error "ERR:Attr"
+      | some call => .ok (WriterS.shape (WriterS.record w (recordOf tm s i)) call) := by
+  unfold SrcIo.toShapefile.loop4
+  simp only []
+  rw [mapExcept_ok _ (cvt s.properties) _ (fun k _ => convertDt_get s.properties k)]
+  simp only [bind, Except.bind, pure, Except.pure]
+  cases toPyshp s.geom with
+  | none => rfl
+  | some call => simp [recordOf, cvt_toP, List.map_map, Function.comp_def]
+
+/-- the record / shape loop writes the model's rows -/
+theorem loop4_eq (tm : Dict PTag) : ∀ (l : List (Nat × Shape)) (w : WriterS),
+    (List.foldlM (SrcIo.toShapefile.loop4 tm) w l).map (·.file) =
+      (writeRows tm l).map fun rows => { w.file with rows := w.file.rows ++ rows } := by
+  intro l
+  induction l with
+  | nil => intro w; simp [List.foldlM, writeRows, pure, Except.pure, Except.map]
+  | cons x rest ih =>
+    intro w
+    obtain ⟨i, s⟩ := x
+    rw [List.foldlM_cons, loop4_step, writeRows]
+    cases hc : toPyshp s.geom with
+    | none => rfl
+    | some call =>
+      simp only [bind, Except.bind]
+      rw [ih]
+      cases writeRows tm rest with
+      | error e => rfl
+      | ok rows => simp [Except.map, WriterS.shape, WriterS.record]
+
+theorem incl_eq (incl : Option (List String)) (k : String) :
+    (!(inclTruthy incl) || inclContains incl k) = included incl k := by
+  rcases incl with _ | _ | ⟨a, l⟩ <;> simp [inclTruthy, inclContains, included]
+
+theorem ok_bind {α β} (a : α) (f : α → Except String β) : (Except.ok a >>= f) = f a := rfl
+
+theorem bind_file (x : Except String WriterS) (out : List ShpFileW) :
+    (x >>= fun st => pure (out ++ [st.file])) = (x.map (·.file)).map (fun f => out ++ [f]) := by
+  cases x <;> rfl
+
+/-- one layer: skipped when empty, else the model's `writeGroup` -/
+theorem loop2_step (incl : Option (List String)) (out : List ShpFileW) (name : String) (group : List Shape) :
+    SrcIo.toShapefile.loop2 incl out (name, group) =
+      if group.isEmpty then .ok out else (writeGroup incl name group).map fun f => out ++ [f] := by
+  unfold SrcIo.toShapefile.loop2
+  by_cases h : group.isEmpty = true
+  · simp [h, pure, Except.pure]
+  · simp only [h, incl_eq, Bool.not_not, Bool.false_eq_true, if_false]
+    rw [loop3_eq, ok_bind]
+    simp only []
+    rw [bind_file, loop4_eq]
+    unfold writeGroup typemapOf
+    simp only []
+    cases writeRows _ (enumFrom 0 group) <;> simp [Except.map, WriterS.field, WriterS.new]
+
+theorem loop2_eq (incl : Option (List String)) : ∀ (groups : List (String × List Shape)) (out : List ShpFileW),
+    List.foldlM (SrcIo.toShapefile.loop2 incl) out groups = (writeGroups incl groups).map (out ++ ·) := by
+  intro groups
+  induction groups with
+  | nil => intro out; simp [List.foldlM, writeGroups, Except.map, pure, Except.pure]
+  | cons x rest ih =>
+    intro out
+    obtain ⟨name, group⟩ := x
+    rw [List.foldlM_cons, loop2_step]
+    by_cases h : group.isEmpty = true
+    · simp only [h, if_true, writeGroups, bind, Except.bind]
+      exact ih out
+    · simp only [h, Bool.false_eq_true, if_false, writeGroups, bind, Except.bind]
+      cases writeGroup incl name group with
+      | error e => rfl
+      | ok f =>
+        simp only [Except.map]
+        rw [ih]
+        cases writeGroups incl rest with
+        | error e => rfl
+        | ok fs => simp [Except.map, pure, Except.pure]
+
+/-- **`CollectionBase.to_shapefile`, translated, writes what the model's `writeShp` writes** -/
+theorem toShapefile_eq (coll : List Shape) (incl : Option (List String)) :
+    SrcIo.toShapefile coll incl = writeShp incl coll := by
+  unfold SrcIo.toShapefile writeShp groupByFamily
+  have h1 : List.foldlM SrcIo.toShapefile.loop1 ([], [], [], []) coll = (groupLoop coll {}).map gTup := loop1_eq coll {}
+  simp only [h1, bind, Except.bind]
+  cases groupLoop coll {} with
+  | error e => rfl
+  | ok g =>
+    simp only [Except.map, gTup]
+    rw [loop2_eq]
+    unfold Groups.toList
+    cases writeGroups incl _ with
+    | error e => rfl
+    | ok fs => simp [Except.map, pure, Except.pure]
+
+/-! ## the reader side: `from_shapefile` (row loop, `conv_map` dispatch) -/
+
+/-- `_get_dt` only returns what a shape constructor accepts as `dt` -/
+theorem shpGetDt_range (fs fe : String) (rec : Dict PVal) (v : V) (h : SrcIo.shpGetDt fs fe rec = .ok v) :
+    ∃ d, dtOfArg v = .ok d := by
+  unfold SrcIo.shpGetDt at h
+  simp only [] at h
+  rcases field_spec rec fs with ⟨h1, _⟩ | ⟨a, h1, _⟩ | ⟨d, e, h1, h0, ht, hf, _⟩ <;>
+    rcases field_spec rec fe with ⟨g1, _⟩ | ⟨b, g1, _⟩ | ⟨d', e', g1, g0, gt, gf, _⟩ <;>
+    simp only [h1, g1] at h <;>
+    simp_all [V.truthy, V.fromiso, V.mkTI, dtOfArg, bind, Except.bind, pure, Except.pure] <;>
+    (try split_ifs at h) <;> (try simp_all [dtOfArg]) <;> (try (subst h; simp [dtOfArg]))
+
+theorem filter_eq_dictDel (d : Dict PVal) (fs fe : String) :
+    (d.filter fun kv => !(kv.1 == fs || kv.1 == fe)) = dictDel (dictDel d fs) fe := by
+  unfold dictDel
+  rw [List.filter_filter]
+  congr 1
+  funext kv
+  by_cases h1 : kv.1 = fs <;> by_cases h2 : kv.1 = fe <;> simp [h1, h2, bne, Bool.and_comm]
+
+theorem dictDel_comm (d : Dict PVal) (a b : String) : dictDel (dictDel d a) b = dictDel (dictDel d b) a := by
+  unfold dictDel
+  rw [List.filter_filter, List.filter_filter]
+  congr 1
+  funext kv
+  rw [Bool.and_comm]
+
+/-- the property filter with the two field names in the other order (a harmless rewrite of the source) -/
+theorem filter_eq_dictDel' (d : Dict PVal) (fs fe : String) :
+    (d.filter fun kv => !(kv.1 == fe || kv.1 == fs)) = dictDel (dictDel d fs) fe := by
+  rw [← filter_eq_dictDel]
+  congr 1
+  funext kv
+  rw [Bool.or_comm]
+
+/-- one row: `conv_map` dispatch, `_get_dt`, the property filter, `from_pyshp` -/
+theorem rloop2_step (fs fe : String) (cm : List (String × Kind)) (rd : ShpFileR) (hcm : ∀ t, dictGet cm t = convMap t)
+    (shapes : List Shape) (row : ShpShapeR × Dict PVal) :
+    SrcIo.fromShapefile.loop2 fs fe cm rd shapes row = (readRow fs fe row).map (shapes ++ [·]) := by
+  unfold SrcIo.fromShapefile.loop2 readRow classGet
+  simp only [hcm, filter_eq_dictDel]
+  try rw [dictDel_comm row.2 fe fs]
+  cases hk : convMap row.1.gtype with
+  | none => rfl
+  | some k =>
+    simp only [Option.isNone_some, Bool.false_eq_true, if_false, ok_bind]
+    rw [← shpGetDt_eq]
+    cases hd : SrcIo.shpGetDt fs fe row.2 with
+    | error e => rfl
+    | ok v =>
+      obtain ⟨d, hdv⟩ := shpGetDt_range fs fe row.2 v hd
+      simp only [ok_bind, fromPyshpV, hdv, bind, Except.bind, pure, Except.pure]
+      cases fromPyshp k row.1 <;> rfl
+
+theorem rloop2_eq (fs fe : String) (cm : List (String × Kind)) (rd : ShpFileR) (hcm : ∀ t, dictGet cm t = convMap t) :
+    ∀ (rows : List (ShpShapeR × Dict PVal)) (shapes : List Shape),
+      List.foldlM (SrcIo.fromShapefile.loop2 fs fe cm rd) shapes rows =
+        (mapExcept (readRow fs fe) rows).map (shapes ++ ·) := by
+  intro rows
+  induction rows with
+  | nil => intro shapes; simp [List.foldlM, mapExcept, Except.map, pure, Except.pure]
+  | cons row rest ih =>
+    intro shapes
+    rw [List.foldlM_cons, rloop2_step fs fe cm rd hcm, mapExcept]
+    cases readRow fs fe row with
+    | error e => rfl
+    | ok sh =>
+      simp only [Except.map, ok_bind, bind, Except.bind]
+      rw [ih]
+      cases mapExcept (readRow fs fe) rest <;> simp [Except.map, pure, Except.pure]
+
+/-- one archive member: skipped unless it is a `.shp` layer with rows -/
+theorem rloop1_step (arch : List Member) (fs fe : String) (cm : List (String × Kind)) (hcm : ∀ t, dictGet cm t = convMap t)
+    (shapes : List Shape) (m : Member) :
+    SrcIo.fromShapefile.loop1 arch fs fe () cm shapes m =
+      if m.isShp then (mapExcept (readRow fs fe) m.reader.rows).map (shapes ++ ·) else .ok shapes := by
+  unfold SrcIo.fromShapefile.loop1
+  by_cases h : m.isShp = true
+  · simp only [h, Bool.false_eq_true, if_false, Bool.not_true, if_true]
+    rw [rloop2_eq fs fe cm m.reader hcm]
+    cases hr : m.reader.rows with
+    | nil => simp [mapExcept, Except.map, pure, Except.pure]
+    | cons r rs =>
+      simp only [List.map_cons, List.isEmpty_cons, Bool.not_false, Bool.not_true, Bool.false_eq_true, if_false]
+      cases mapExcept (readRow fs fe) (r :: rs) <;> rfl
+  · simp [h, pure, Except.pure]
+
+theorem rloop1_eq (arch : List Member) (fs fe : String) (cm : List (String × Kind)) (hcm : ∀ t, dictGet cm t = convMap t) :
+    ∀ (ms : List Member) (shapes : List Shape),
+      List.foldlM (SrcIo.fromShapefile.loop1 arch fs fe () cm) shapes ms =
+        (mapExcept (fun f => mapExcept (readRow fs fe) f.rows) ((ms.filter (·.isShp)).map (·.reader))).map
+          (fun xs => shapes ++ xs.flatten) := by
+  intro ms
+  induction ms with
+  | nil => intro shapes; simp [List.foldlM, mapExcept, Except.map, pure, Except.pure]
+  | cons m rest ih =>
+    intro shapes
+    rw [List.foldlM_cons, rloop1_step arch fs fe cm hcm]
+    by_cases h : m.isShp = true
+    · simp only [h, if_true, List.filter_cons_of_pos, List.map_cons, mapExcept]
+      cases mapExcept (readRow fs fe) m.reader.rows with
+      | error e => rfl
+      | ok xs =>
+        simp only [Except.map, ok_bind, bind, Except.bind]
+        rw [ih]
+        cases mapExcept _ (List.map (·.reader) (List.filter (·.isShp) rest)) <;>
+          simp [Except.map, pure, Except.pure]
+    · simp only [h, Bool.false_eq_true, if_false, ok_bind]
+      rw [ih, List.filter_cons_of_neg (by simpa using h)]
+
+theorem convLit_eq (t : String) :
+    dictGet [("Point", Kind.point), ("LineString", Kind.line), ("Polygon", Kind.poly), ("MultiPoint", Kind.mpoint),
+      ("MultiLineString", Kind.mline), ("MultiPolygon", Kind.mpoly)] t = convMap t := by
+  unfold convMap
+  simp only [dictGet_cons, dictGet_nil, beq_iff_eq, eq_comm (b := t)]
+
+/-- **`CollectionBase.from_shapefile`, translated, reads what the model's `readShp` reads from the `.shp` members** -/
+theorem fromShapefile_eq (arch : List Member) (fs fe : String) :
+    SrcIo.fromShapefile arch fs fe () = readShp ((arch.filter (·.isShp)).map (·.reader)) fs fe := by
+  unfold SrcIo.fromShapefile readShp
+  simp only []
+  rw [rloop1_eq arch fs fe _ convLit_eq]
+  cases mapExcept _ _ <;> simp [Except.map, bind, Except.bind, pure, Except.pure]
+
+/-! ## GeoPandas: `to_geopandas` -/
+
+theorem toP_get (d : Dict PVal) (k : String) : V.toP (V.get d k) = (dictGet d k).getD .null := by
+  unfold V.get
+  cases dictGet d k <;> rfl
+
+theorem strSet_keys (coll : List Shape) :
+    strSet ((coll.map fun s => (Shape.properties s).map (·.1)).flatten) = keyUnion coll := by
+  unfold strSet keyUnion
+  simp [List.map_flatten, List.map_map, Function.comp_def]
+
+/-- **`CollectionBase.to_geopandas`, translated, hands pandas / GeoPandas what the model's `toGeopandas` does** -/
+theorem toGeopandas_eq (coll : List Shape) (incl : Option (List String)) :
+    SrcIo.toGeopandas coll incl = GV.Io.toGeopandas incl coll := by
+  unfold SrcIo.toGeopandas GV.Io.toGeopandas
+  simp only [List.map_map, Function.comp_def, List.map_id', toP_get]
+  have hk : inclOr incl (strSet ((coll.map fun s => (Shape.properties s).map (·.1)).flatten)) =
+      (match incl with | some (k :: ks) => k :: ks | _ => keyUnion coll) := by
+    rcases incl with _ | _ | ⟨a, l⟩ <;> simp [inclOr, inclTruthy, strSet_keys]
+  have hm : (fun x => giOrErr x) = giOrErr := rfl
+  simp only [hm]
+  cases mapExcept giOrErr coll with
+  | error e => rfl
+  | ok gs =>
+    simp [hk, Except.map, bind, Except.bind, pure, Except.pure]
+    intro s _
+    rcases incl with _ | _ | ⟨b, l⟩ <;> rfl
+
+/-! ## GeoPandas: `from_geopandas` (row loop, `conv_map` dispatch, property columns) -/
+
+/-- `_get_dt` of `from_geopandas` only returns what a shape constructor accepts as `dt` -/
+theorem gpdGetDt_range (fs fe : String) (rec : Dict PVal) (v : V) (h : SrcIo.gpdGetDt fs fe rec = .ok v) :
+    ∃ d, dtOfArg v = .ok d := by
+  revert v
+  unfold SrcIo.gpdGetDt V.get
+  rcases dictGet rec fs with _ | s <;> rcases dictGet rec fe with _ | e
+  · intro v h; simp [V.isNull, V.isInst, pure, Except.pure] at h; subst h; exact ⟨_, rfl⟩
+  · cases e <;> intro v h <;>
+      simp [V.truthy, V.isNull, V.isInst, PVal.tag, V.mkTI, pure, Except.pure] at h <;>
+      (try split_ifs at h) <;> (try subst v) <;> (try simp_all [dtOfArg]) <;> (try (rw [← h]; simp [dtOfArg]))
+  · cases s <;> intro v h <;>
+      simp [V.truthy, V.isNull, V.isInst, PVal.tag, V.mkTI, pure, Except.pure] at h <;>
+      (try split_ifs at h) <;> (try subst v) <;> (try simp_all [dtOfArg]) <;> (try (rw [← h]; simp [dtOfArg]))
+  · cases s <;> cases e <;> intro v h <;>
+      simp [V.truthy, V.isNull, V.isInst, PVal.tag, V.mkTI, pure, Except.pure] at h <;>
+      (try split_ifs at h) <;> (try subst v) <;> (try simp_all [dtOfArg]) <;> (try (rw [← h]; simp [dtOfArg]))
+
+/-- the property columns: every column but the two time fields (the frame's `columns` are without `geometry`) -/
+theorem propFields_contains (cols : List String) (fs fe k : String) (hgeo : "geometry" ∉ cols) :
+    (cols.filter fun x => !(x == fs || x == fe || x == "geometry")).contains k =
+      (cols.contains k && k != fs && k != fe) := by
+  rw [Bool.eq_iff_iff]
+  simp only [List.contains_iff_mem, List.mem_filter, Bool.and_eq_true, bne_iff_ne, Bool.not_eq_true', Bool.or_eq_false_iff,
+    beq_eq_false_iff_ne, ne_eq]
+  constructor
+  · rintro ⟨hk, ⟨h1, h2⟩, _⟩; exact ⟨⟨hk, h1⟩, h2⟩
+  · rintro ⟨⟨hk, h1⟩, h2⟩; exact ⟨hk, ⟨h1, h2⟩, fun h => hgeo (h ▸ hk)⟩
+
+theorem gloop1_step (fs fe : String) (cm : List (String × Kind)) (pf cols : List String)
+    (hcm : ∀ t, dictGet cm t = convMap t) (hpf : ∀ k, pf.contains k = (cols.contains k && k != fs && k != fe))
+    (shapes : List Shape) (r : GpdRowR) :
+    SrcIo.fromGeopandas.loop1 fs fe cm pf shapes r = (fromGpdRow cols fs fe r).map (shapes ++ [·]) := by
+  unfold SrcIo.fromGeopandas.loop1 fromGpdRow classGet
+  simp only [hcm, hpf]
+  cases hk : convMap r.geomType with
+  | none => rfl
+  | some k =>
+    simp only [Option.isNone_some, Bool.false_eq_true, if_false, ok_bind]
+    rw [← gpdGetDt_eq]
+    cases hd : SrcIo.gpdGetDt fs fe r.cells with
+    | error e => rfl
+    | ok v =>
+      obtain ⟨d, hdv⟩ := gpdGetDt_range fs fe r.cells v hd
+      simp only [ok_bind, fromWktV, hdv, bind, Except.bind, pure, Except.pure]
+      cases fromGI k r.wkt <;> rfl
+
+theorem gloop1_eq (fs fe : String) (cm : List (String × Kind)) (pf cols : List String)
+    (hcm : ∀ t, dictGet cm t = convMap t) (hpf : ∀ k, pf.contains k = (cols.contains k && k != fs && k != fe)) :
+    ∀ (rows : List GpdRowR) (shapes : List Shape),
+      List.foldlM (SrcIo.fromGeopandas.loop1 fs fe cm pf) shapes rows =
+        (mapExcept (fromGpdRow cols fs fe) rows).map (shapes ++ ·) := by
+  intro rows
+  induction rows with
+  | nil => intro shapes; simp [List.foldlM, mapExcept, Except.map, pure, Except.pure]
+  | cons r rest ih =>
+    intro shapes
+    rw [List.foldlM_cons, gloop1_step fs fe cm pf cols hcm hpf, mapExcept]
+    cases fromGpdRow cols fs fe r with
+    | error e => rfl
+    | ok sh =>
+      simp only [Except.map, ok_bind, bind, Except.bind]
+      rw [ih]
+      cases mapExcept (fromGpdRow cols fs fe) rest <;> simp [Except.map, pure, Except.pure]
+
+/-- **`CollectionBase.from_geopandas`, translated, reads what the model's `fromGeopandas` reads** (the channel's
+    `columns` are the columns other than `geometry`) -/
+theorem fromGeopandas_eq (f : GpdFrameR) (fs fe : String) (hgeo : "geometry" ∉ f.columns) :
+    SrcIo.fromGeopandas f fs fe = GV.Io.fromGeopandas f fs fe := by
+  unfold SrcIo.fromGeopandas GV.Io.fromGeopandas
+  simp only [List.map_id']
+  rw [gloop1_eq fs fe _ _ f.columns convLit_eq (fun k => propFields_contains f.columns fs fe k hgeo)]
+  cases mapExcept _ _ <;> simp [Except.map, bind, Except.bind, pure, Except.pure]
+
+/-! ## KML exporters: `TimeInterval._to_fastkml`, `to_fastkml_placemark`, `to_fastkml_folder` -/
+
+theorem tiToFastkml_eq (a b : Int) : SrcIo.tiToFastkml (a, b) = .ok (toKTime (some (a, b))) := by
+  unfold SrcIo.tiToFastkml toKTime
+  by_cases h : a = b
+  · subst h; simp [pure, Except.pure]
+  · have h' : ¬ b = a := fun e => h e.symm
+    simp [h, h', pure, Except.pure]
+
+theorem toFastkmlPlacemark_eq (s : Shape) : SrcIo.toFastkmlPlacemark s = toPlacemark s := by
+  unfold SrcIo.toFastkmlPlacemark toPlacemark giOrErr
+  cases toGI s.geom with
+  | none => rfl
+  | some g =>
+    rcases hd : s.dt with _ | ⟨a, b⟩
+    · simp [toKTime, bind, Except.bind, pure, Except.pure]
+    · simp [tiToFastkml_eq, bind, Except.bind, pure, Except.pure]
+
+/-- **`CollectionBase.to_fastkml_folder`, translated, builds the model's folder** -/
+theorem toFastkmlFolder_eq (coll : List Shape) (name : String) :
+    SrcIo.toFastkmlFolder coll name = toFolder name coll := by
+  unfold SrcIo.toFastkmlFolder toFolder
+  have h : (fun x => SrcIo.toFastkmlPlacemark x) = toPlacemark := funext toFastkmlPlacemark_eq
+  simp only [h]
+  cases mapExcept toPlacemark coll <;> rfl
+
+/-- `TimeInterval._from_fastkml` on a time stamp / time span is the model's `fromKTime` (the caller only hands it a
+    time object that is present; anything else is the `ValueError` of its last line) -/
+theorem tiFromFastkml_eq (kt : KTime) :
+    (SrcIo.tiFromFastkml kt).map some = match kt with | .none => .error "ERR:Value" | kt => fromKTime kt := by
+  unfold SrcIo.tiFromFastkml
+  cases kt with
+  | none => rfl
+  | stamp t =>
+    simp [ktIsStamp, ktIsSpan, ktTimestampDt, ktBeginDt, ktEndDt, tiOfInts, fromKTime, Except.map, bind, Except.bind]
+  | span b e =>
+    by_cases h : e < b <;>
+      simp [ktIsStamp, ktIsSpan, ktTimestampDt, ktBeginDt, ktEndDt, tiOfInts, fromKTime, Except.map, bind, Except.bind, h]
+
 /-! ## the importers with the translated helpers in place, and the headline theorems restated for them
 
 `from_shapefile` / `from_geopandas` as `Model/Io.lean` has them, except that the time bounds of a row are what the
@@ -109,19 +536,50 @@ theorem srcFromGeopandas_eq (f : GpdFrameR) (fs fe : String) : srcFromGeopandas 
   rw [gpdGetDt_eq]
   cases convMap r.geomType <;> rfl
 
+/-- `shp_roundtrip_partial` for the translated writer (`to_shapefile`, whole) and the translated reader (`from_shapefile`,
+    whole, with its `_get_dt`): the zip archive holds, among other members, one `.shp` layer per written file, read back
+    through the channel `ch` -/
 theorem shp_roundtrip_partial_src (ch : ShpFileW → ShpFileR) (hch : ∀ f, ch f = idealShp f)
+    (arch : List ShpFileW → List Member)
+    (harch : ∀ files, ((arch files).filter (·.isShp)).map (·.reader) = files.map ch)
     (coll : List Shape) (hwf : ∀ s ∈ coll, ShapeWF s) (hu : UniformTypes coll) :
-    ∃ g files back, groupByFamily coll = .ok g ∧ writeShp none coll = .ok files ∧
-      srcReadShp (files.map ch) = .ok back ∧
+    ∃ g files back, groupByFamily coll = .ok g ∧ SrcIo.toShapefile coll none = .ok files ∧
+      SrcIo.fromShapefile (arch files) "datetime_s" "datetime_e" () = .ok back ∧
       List.Forall₂ BackRel (g.points ++ g.multipoints ++ g.lines ++ g.shapes) back := by
   obtain ⟨g, files, back, h1, h2, h3, h4⟩ := shp_roundtrip_partial ch hch coll hwf hu
-  exact ⟨g, files, back, h1, h2, by rw [srcReadShp_eq]; exact h3, h4⟩
+  exact ⟨g, files, back, h1, by rw [toShapefile_eq]; exact h2, by rw [fromShapefile_eq, harch]; exact h3, h4⟩
 
+/-- the archive hypothesis is satisfiable: the layers themselves, each followed by a non-`.shp` member -/
+example (ch : ShpFileW → ShpFileR) : ∀ files : List ShpFileW,
+    (((files.map fun f => [(⟨true, ch f⟩ : Member), ⟨false, ch f⟩]).flatten).filter (·.isShp)).map (·.reader) = files.map ch := by
+  intro files
+  induction files with
+  | nil => rfl
+  | cons f rest ih => simpa using ih
+
+/-- `gpd_roundtrip_partial` for the translated exporter (`to_geopandas`) and importer (`from_geopandas`, whole, with its
+    `_get_dt`).  `hgeo`: no property of the collection is called `geometry` (the frame's `columns` are the columns other
+    than the geometry column) -/
 theorem gpd_roundtrip_partial_src (ch : GpdFrameW → GpdFrameR) (hch : ∀ w, ch w = idealGpd w)
-    (coll : List Shape) (hwf : ∀ s ∈ coll, GpdShapeWF s) :
-    ∃ w back, toGeopandas none coll = .ok w ∧ srcFromGeopandas (ch w) = .ok back ∧
+    (coll : List Shape) (hwf : ∀ s ∈ coll, GpdShapeWF s)
+    (hgeo : ∀ w, GV.Io.toGeopandas none coll = .ok w → "geometry" ∉ (ch w).columns) :
+    ∃ w back, SrcIo.toGeopandas coll none = .ok w ∧
+      SrcIo.fromGeopandas (ch w) "datetime_start" "datetime_end" = .ok back ∧
       List.Forall₂ (GpdBackRel w.rows) coll back := by
   obtain ⟨w, back, h1, h2, h3⟩ := gpd_roundtrip_partial ch hch coll hwf
-  exact ⟨w, back, h1, by rw [srcFromGeopandas_eq]; exact h2, h3⟩
+  exact ⟨w, back, by rw [toGeopandas_eq]; exact h1, by rw [fromGeopandas_eq _ _ _ (hgeo w h1)]; exact h2, h3⟩
+
+/-- `hgeo` holds of a non-trivial collection -/
+example : "geometry" ∉ (idealGpd ⟨[[("name", PVal.str "a"), ("n", PVal.int 1)]], [⟨"Point", [[[[0, 0]]]]⟩]⟩).columns := by
+  decide
+
+/-- `kml_roundtrip_partial` for the translated exporter (`to_fastkml_folder` with `to_fastkml_placemark` and
+    `TimeInterval._to_fastkml`); the importer `parse_fastkml` is the model's (not translated) -/
+theorem kml_roundtrip_partial_src (ch : KNode → KNode) (hch : ∀ n, ch n = idealKml n)
+    (name : String) (coll : List Shape) (hwf : ∀ s ∈ coll, KmlShapeWF s) :
+    ∃ folder back, SrcIo.toFastkmlFolder coll name = .ok folder ∧ fromFolder (ch folder) = .ok back ∧
+      List.Forall₂ (KmlBackRel (folderLabel (some name))) coll back := by
+  obtain ⟨folder, back, h1, h2, h3⟩ := kml_roundtrip_partial ch hch name coll hwf
+  exact ⟨folder, back, by rw [toFastkmlFolder_eq]; exact h1, h2, h3⟩
 
 end GV.C20Src
